@@ -2567,6 +2567,248 @@ def run_ckpt(ctx):
 
 
 # =================================================================================================
+# C19 gen_policy_ckpt: weights-only round trips of every bundled constructive policy, warm starts
+# =================================================================================================
+
+def walk_params(module):
+    """every nn.Parameter reachable from the object graph of `module`: through registered sub-modules AND through plain
+    attributes (dicts / lists / tuples / sets held in a module's `__dict__`) — yields (attribute path, parameter)"""
+    import torch.nn as nn
+
+    seen = set()
+
+    def rec(obj, path, depth):
+        if depth > 40 or id(obj) in seen:
+            return
+        seen.add(id(obj))
+        if isinstance(obj, nn.Parameter):
+            yield path, obj
+        elif isinstance(obj, nn.Module):
+            for k, v in obj._parameters.items():
+                if v is not None:
+                    yield f"{path}.{k}", v
+            for k, v in obj._modules.items():
+                if v is not None:
+                    yield from rec(v, f"{path}.{k}", depth + 1)
+            for k, v in vars(obj).items():
+                if k not in ("_parameters", "_buffers", "_modules") and not k.startswith("_forward") and not k.startswith("_backward") \
+                        and not k.startswith("_state_dict") and not k.startswith("_load_state_dict"):
+                    yield from rec(v, f"{path}.{k}", depth + 1)
+        elif isinstance(obj, dict):
+            for k, v in obj.items():
+                yield from rec(v, f"{path}[{k!r}]", depth + 1)
+        elif isinstance(obj, (list, tuple, set)):
+            for j, v in enumerate(obj):
+                yield from rec(v, f"{path}[{j}]", depth + 1)
+    yield from rec(module, "policy", 0)
+
+
+def perturb_policy(policy, gen_seed, only_unregistered=None):
+    """every parameter in state_dict, and every nn.Parameter found by walking the object graph, gets a deterministic non-initial
+    value; returns the attribute paths of parameters that are NOT in state_dict().  `only_unregistered=True/False` restricts the
+    perturbation to the unregistered / registered ones."""
+    g = torch.Generator().manual_seed(gen_seed)
+    sd_ptrs = {v.data_ptr() for v in policy.state_dict().values() if torch.is_tensor(v)}
+    missing = []
+    with torch.no_grad():
+        done = set()
+        for path, prm in walk_params(policy):
+            if prm.data_ptr() in done or prm.numel() == 0:
+                continue
+            done.add(prm.data_ptr())
+            unreg = prm.data_ptr() not in sd_ptrs
+            if unreg:
+                missing.append(path)
+            if prm.is_floating_point() and (only_unregistered is None or only_unregistered == unreg):
+                prm.add_((0.5 if unreg else 0.05) * torch.randn(prm.shape, generator=g))
+    return missing
+
+
+def greedy_out(policy, env, td, seed=777):
+    policy.eval()
+    seed_all(seed)   # random init embeddings (MatNet), noisy gating (MVMoE) …: same stream before every forward
+    with torch.no_grad():
+        out = policy(td.clone(), env, phase="test", decode_type="greedy", return_actions=True)
+    ll = out.get("log_likelihood")
+    return out["actions"], out["reward"], ll
+
+
+def same_out(a, b):
+    if a[0].shape != b[0].shape or not torch.equal(a[0], b[0]):
+        return "greedy actions differ"
+    if not torch.allclose(a[1], b[1], atol=1e-6):
+        return "rewards differ"
+    if a[2] is not None and b[2] is not None and not torch.allclose(a[2], b[2], atol=1e-5):
+        return f"log-likelihoods differ (max |Δ| {float((a[2] - b[2]).abs().max()):.3g})"
+    return None
+
+
+def policy_roundtrips(ctx):
+    import aug_zoo
+    from rl4co.models.rl.reinforce.reinforce import REINFORCE
+    from rl4co.utils.trainer import RL4COTrainer
+
+    rng = ctx.rng
+    tmp = tempfile.mkdtemp(prefix="gen_polckpt_")
+    try:
+        zoo = [(name, build, envs) for name, build, envs, _ in aug_zoo.ZOO if name not in ("nargnn",)]   # (nargnn needs torch_geometric)
+        lightning_for = set(rng.sample([z[0] for z in zoo], 3)) if ctx.tier == "quick" else {z[0] for z in zoo}
+        for name, build, envs in zoo:
+            for envname in (envs[:1] if ctx.tier == "quick" else envs[:3]):
+                seed = rng.randrange(1 << 30)
+                witness = {"policy": name, "env": envname, "seed": seed}
+                try:
+                    with quiet():
+                        seed_all(seed)
+                        env = aug_zoo.make_env(envname)
+                        pol = build(envname)
+                        td = env.reset(env.generator([4]))
+                        missing = perturb_policy(pol, seed % 1000, only_unregistered=False)
+                        o_reg = greedy_out(pol, env, td)
+                        perturb_policy(pol, seed % 1000 + 1, only_unregistered=True)
+                        o1 = greedy_out(pol, env, td)
+                        live = bool(missing) and same_out(o_reg, o1) is not None   # do the unregistered parameters take part in the forward pass?
+                except Exception as e:  # noqa: BLE001
+                    ctx.count(f"policy-ckpt:{name}:{envname}:unavailable({type(e).__name__})")
+                    continue
+                ctx.count(f"policy-ckpt:{name}:{envname}")
+                for path in missing:
+                    if live:
+                        V(ctx, f"ckpt:parameter-not-in-state-dict:{name}:{path}",
+                          f"{type(pol).__name__}: the nn.Parameter at `{path}` is reachable from the policy and changes its output, but is absent from "
+                          f"state_dict() — it is neither saved nor restored (nor optimised)", witness)
+                    else:   # dead weight: unregistered, but the forward pass does not read it (changing it leaves actions / reward / log-likelihood unchanged)
+                        ctx.count(f"policy-ckpt:{name}:unregistered-parameter-not-used-by-forward")
+                        ctx.note(f"{type(pol).__name__}: nn.Parameter `{path}` is not in state_dict() but the forward pass does not use it (dead weight)")
+                # (a) state_dict → torch.save / torch.load (weights only) → a FRESH policy object, strict
+                try:
+                    with quiet():
+                        f = os.path.join(tmp, "sd.pt")
+                        torch.save(pol.state_dict(), f)
+                        sd = torch.load(f, weights_only=True)
+                        seed_all(seed + 1)
+                        fresh = build(envname)
+                        fresh.load_state_dict(sd, strict=True)
+                        o2 = greedy_out(fresh, env, td)
+                    d = same_out(o1, o2)
+                    if d:
+                        V(ctx, f"ckpt-weights-only-restore-differs:{name}", f"{type(pol).__name__} on {envname}: a fresh policy restored from state_dict() "
+                          f"(load_state_dict strict=True raised nothing): {d}", dict(witness, unregistered=missing[:4]))
+                    d2 = sd_equal(pol.state_dict(), fresh.state_dict())
+                    if d2:
+                        V(ctx, f"ckpt-weights-only-restore-differs:{name}", f"state_dict after restore differs: {d2}", witness)
+                except Exception as e:  # noqa: BLE001
+                    V(ctx, f"ckpt-weights-only-restore-raises:{name}:{type(e).__name__}", f"{type(pol).__name__} on {envname}: state_dict round trip raises "
+                      f"{type(e).__name__}: {str(e)[:160]}", witness)
+                # (b) a Lightning checkpoint: object restore (forced unpickling) and weights-only restore of checkpoint['state_dict']
+                if name in lightning_for:
+                    try:
+                        with quiet():
+                            model = REINFORCE(env, pol, baseline="no", batch_size=4, val_batch_size=4, test_batch_size=4, train_data_size=8,
+                                              val_data_size=4, test_data_size=4, optimizer_kwargs={"lr": 1e-3})
+                            tr = RL4COTrainer(max_epochs=1, accelerator="cpu", devices=1, precision="32-true", gradient_clip_val=1.0, logger=False,
+                                              enable_checkpointing=False, enable_progress_bar=False, enable_model_summary=False, default_root_dir=tmp,
+                                              num_sanity_val_steps=0, matmul_precision=None)
+                            tr.fit(model)
+                            path = os.path.join(tmp, "m.ckpt")
+                            tr.save_checkpoint(path)
+                            o_tr = greedy_out(model.policy, env, td)
+                            ck = torch.load(path, weights_only=False)
+                            psd = {k[len("policy."):]: v for k, v in ck["state_dict"].items() if k.startswith("policy.")}
+                            seed_all(seed + 2)
+                            fresh2 = build(envname)
+                            fresh2.load_state_dict(psd, strict=True)
+                            o3 = greedy_out(fresh2, env, td)
+                        d = same_out(o_tr, o3)
+                        if d:
+                            V(ctx, f"ckpt-weights-only-restore-differs:{name}", f"{type(pol).__name__} on {envname}: a fresh policy restored from the Lightning "
+                              f"checkpoint's state_dict: {d}", dict(witness, path="lightning state_dict"))
+                        ctx.count(f"policy-ckpt:{name}:lightning")
+                    except Exception as e:  # noqa: BLE001
+                        ctx.count(f"policy-ckpt:{name}:lightning-unavailable({type(e).__name__})")
+                ctx.case(("policy-ckpt", name, envname, seed))
+                if name in ("matnet", "am"):
+                    ctx.sample({"case": "policy state_dict → fresh object (strict) → same greedy actions / reward / log-likelihood", "policy": name, "env": envname,
+                                "parameters_not_in_state_dict": missing, "reward": [round(x, 4) for x in o1[1][:2].tolist()]}, cap=2)
+    finally:
+        shutil.rmtree(tmp, ignore_errors=True)
+
+
+def polynet_warm_start(ctx):
+    """`PolyNet(base_model_checkpoint_path=…)`: the tensors shared with the checkpoint's POLICY must be restored from `policy.*`, never
+    from the rollout baseline's frozen copy `baseline.baseline.policy.*`; key mapping vs `Gen.Persist.mapKey`"""
+    import aug_zoo
+    from rl4co.models.zoo.polynet import PolyNet
+
+    rng = ctx.rng
+    tmp = tempfile.mkdtemp(prefix="gen_warm_")
+    try:
+        for envname in ("tsp", "cvrp"):
+            for order in ("policy-first", "baseline-first"):
+                seed = rng.randrange(1 << 30)
+                seed_all(seed)
+                with quiet():
+                    env = aug_zoo.make_env(envname)
+                    base = aug_zoo._am(envname, normalization="instance")   # PolyNet's encoder uses instance normalisation (it warm-starts from POMO-style models)
+                    perturb_policy(base, 1)
+                    snap = copy.deepcopy(base)
+                    perturb_policy(base, 2)          # the policy moved on after the baseline's snapshot was taken
+                pol_items = [("policy." + k, v.clone()) for k, v in base.state_dict().items()]
+                bl_items = [("baseline.baseline.policy." + k, v.clone()) for k, v in snap.state_dict().items()]
+                items = pol_items + bl_items if order == "policy-first" else bl_items + pol_items
+                path = os.path.join(tmp, f"{envname}_{order}.ckpt")
+                torch.save({"state_dict": dict(items)}, path)
+                witness = {"env": envname, "checkpoint_key_order": order, "seed": seed}
+                try:
+                    with quiet():
+                        seed_all(seed + 1)
+                        poly = PolyNet(env, k=3, base_model_checkpoint_path=path, policy_kwargs=dict(aug_zoo.TINY), batch_size=4,
+                                       train_data_size=8, val_data_size=4, test_data_size=4)
+                except Exception as e:  # noqa: BLE001
+                    V(ctx, f"warm-start-raises:polynet:{type(e).__name__}", f"PolyNet(base_model_checkpoint_path=…) raises {type(e).__name__}: {str(e)[:160]}", witness)
+                    continue
+                psd = poly.policy.state_dict()
+                mapped = ask(ctx, ["gen.keymap " + " ".join(k for k, _ in items)])[0]["keys"].split(",")
+                src = {}
+                for (k, _), m_ in zip(items, mapped):
+                    src[m_] = k                       # the last checkpoint entry mapped onto a key wins (dict comprehension + load_state_dict)
+                shared = [k for k in psd if k in base.state_dict() and psd[k].shape == base.state_dict()[k].shape]
+                ctx.count(f"warm-start:polynet:{envname}:{order}:shared-tensors", len(shared))
+                ckpt = dict(items)
+                for k in shared:
+                    if not torch.equal(psd[k], base.state_dict()[k]):
+                        from_bl = torch.equal(psd[k], snap.state_dict()[k])
+                        V(ctx, "warm-start-restores-wrong-tensor:polynet",
+                          f"PolyNet warm start: `{k}` is not the checkpoint's `policy.{k}`" + (" but the rollout baseline's frozen copy `baseline.baseline.policy." + k + "`" if from_bl else ""),
+                          dict(witness, key=k))
+                        break
+                    if src.get(k) is None or not torch.equal(psd[k], ckpt[src[k]]):
+                        ctx.disagreement("polynet warm start: restored tensor vs Gen.Persist.mapKey / sourceOf", {"key": k, "model_source": src.get(k)})
+                        break
+                if not shared:
+                    ctx.note("polynet warm start: no tensor shared with the AM base policy")
+                # the restored encoder computes what the saved policy's encoder computes
+                td = env.reset(env.generator([3]))
+                with torch.no_grad():
+                    base.eval(); poly.policy.eval()
+                    h1 = base.encoder(td.clone())[0]
+                    h2 = poly.policy.encoder(td.clone())[0]
+                if h1.shape == h2.shape and not torch.allclose(h1, h2, atol=1e-6):
+                    V(ctx, "warm-start-restores-wrong-tensor:polynet", "PolyNet warm start: the restored encoder's output differs from the saved policy's encoder output",
+                      witness)
+                ctx.case(("warm", envname, order, seed))
+                ctx.sample({"case": "PolyNet(base_model_checkpoint_path=ckpt) with policy.* and baseline.baseline.policy.* entries", "env": envname, "order": order,
+                            "shared_tensors": len(shared), "model": "Gen.Persist.mapKey (k.replace('policy.', '', 1))"}, cap=1)
+    finally:
+        shutil.rmtree(tmp, ignore_errors=True)
+
+
+def run_policy_ckpt(ctx):
+    guarded(ctx, "policy-roundtrips", policy_roundtrips)
+    guarded(ctx, "polynet-warm-start", polynet_warm_start)
+
+
+# =================================================================================================
 # registration
 # =================================================================================================
 
@@ -2724,3 +2966,14 @@ register(Unit("C19", "gen_ckpt", run_ckpt, drivers=["drv_gen"], lean_modules=[P1
                                         "warmup(n_epochs=3: fractional alpha); compared after restore: actor weights and greedy solutions, baseline state_dict, baseline "
                                         "policy greedy solutions, hparams / data_cfg / env generator parameters, baseline.eval on a fixed (state, reward). "
                                         "`rollout_only` cannot be trained (setup wraps the dataset before the baseline has a policy) and is not covered"], weight=3.0))
+register(Unit("C19", "gen_policy_ckpt", run_policy_ckpt, drivers=["drv_gen"], lean_modules=[P19],
+              theorems=[
+                  T("Rl4co.Gen.Persist.warm_start_keys", "proved", "the coded key mapping (k.replace('policy.', '', 1)): policy.<n> ↦ <n>, baseline.baseline.policy.<n> ↦ baseline.baseline.<n>"),
+                  T("Rl4co.Gen.Persist.strip_policy_injective", "proved", "distinct policy.* keys map to distinct policy keys"),
+                  T("Rl4co.Gen.Persist.baseline_not_onto_policy", "proved", "a baseline.* checkpoint key is never mapped onto a policy parameter (whose name does not begin with baseline.)"),
+              ],
+              assumptions=[PERSIST_NOTE, "every bundled constructive policy that can be built offline (harness/aug_zoo.ZOO: AM, POMO-style AM, SymNCO, HAM, MDAM, PolyNet, "
+                           "PtrNet, MatNet on ATSP, MVMoE, L2D / L2D-attn on FJSP, NAR heatmap) with perturbed weights — every state_dict tensor and every nn.Parameter reachable "
+                           "through plain attributes — restored weights-only into a FRESH object (strict) and compared on greedy actions, reward, log-likelihood with the RNG re-seeded; "
+                           "Lightning checkpoints for a rotating subset at the quick tier; structural check: every reachable nn.Parameter is in state_dict()",
+                           "PolyNet warm start from synthetic checkpoints {policy.*, baseline.baseline.policy.*} in both key orders (torch.load weights-only loadable)"], weight=3.0))
